@@ -404,6 +404,9 @@ func (s *State) loadFrom(hp *Heap, p Value) Value {
 			s.refClosure(hp, prefix+l.Path, addr, inner...)
 		}
 	}
+	if hp == s.heap {
+		s.sliceInv(ls, terms)
+	}
 	return build(t, &terms)
 }
 
